@@ -110,7 +110,9 @@ pub const TEXT_POOL: &[&str] = &["a", "b", "ab", "A", "abc", "b c", "Zz", "10", 
     // case mappings that are not one character to one character, or depend on the position in the word
     "\u{39f}\u{394}\u{39f}\u{3a3}", "Stra\u{df}e", "\u{130}x", "\u{1c5}", "\u{fb01}n",
     // characters that matter to the statement tokenizer when the text is written as a literal: quotes, backslashes (also last), comment and statement marks
-    "it's", "C:\\logs\\", "a--b", "semi;colon", "say \"hi\"", "'quoted'", "\\"];
+    "it's", "C:\\logs\\", "a--b", "semi;colon", "say \"hi\"", "'quoted'", "\\",
+    // white space at the ends (a TEXT value is its characters, also through casts and comparisons)
+    " lead", "trail ", "\tboth\t"];
 pub const TS_POOL: &[&str] = &["2021-03-04 05:06:07", "2021-03-04 05:06:08", "2020-02-29 23:59:59", "1999-12-31 00:00:00", "2021-03-05 00:00:00", "2022-11-30 12:30:00"];
 pub const IV_POOL: &[&str] = &["0:00:00", "0:00:01", "1:02:03", "0:59:59", "24:00:00", "100:00:00", "0:01:00"];
 
